@@ -539,6 +539,7 @@ def _for_with_invariant(ip, s, it, inv):
     st.assume(z3.And(i.e >= 0, i.e <= n))
     _check_inv(ip, inv, None, {'_i': i}, assume=True)
     if st.branch(i.e < n, "for: more items"):
+        fr.env['_i%d' % inv.loop] = i
         ip.assign(s.target, elem(i.e))
         before = {k: dict(v) for k, v in st.heap.items()}
         try:
